@@ -102,20 +102,71 @@ Searches == <<<<0, 1>>, <<0, 2>>, <<1, 1>>, <<1, 3>>>>
 Lookups == [k \in 1..(N + 1) |-> <<"index", k - 1>>] \o [k \in 1..(N + 1) |-> <<"time", TimeOf(k - 1) - 5>>]
            \o <<<<"time", TimeOf(1)>>>>
 
+-----------------------------------------------------------------------------
+(* ---- filter sets (src/filter, match_filters in src/utils/remote_utils.rs).  A filter has a kind (pos / neg / event /
+   marker), may be disabled, and literal criteria (conjunction of the ones set).  A message is kept iff
+     (no enabled positive filter, or one of them matches) and no enabled negative filter matches
+     and (no enabled event filter, or one of them matches);  marker and disabled filters never change the set.
+   A stream is *filtered* iff it has an enabled pos, neg or event filter (else its positions are the log's).
+   The abstract `match` set of the model is realised by every shape of filter set below: per position the message gets
+   attribute bits p / n / e (ecu ECUP|ECUX, apid AP{N|X}{E|X}) such that the set kept by the shape's filters is `match`;
+   for a position outside `match` the criterion that fails rotates over the criteria the shape uses.            *)
+Flt(k, on, e, a, c) == [k |-> k, on |-> on, e |-> e, a |-> a, c |-> c]
+FMatches(f, m) == (f.e = "" \/ f.e = m.e) /\ (f.a = "" \/ f.a = m.a) /\ (f.c = "" \/ f.c = m.c)
+ActiveOf(filt, k) == {j \in 1..Len(filt) : filt[j].on /\ filt[j].k = k}
+KeepMsg(filt, m) == /\ (ActiveOf(filt, "pos") = {} \/ \E j \in ActiveOf(filt, "pos") : FMatches(filt[j], m))
+                    /\ ~(\E j \in ActiveOf(filt, "neg") : FMatches(filt[j], m))
+                    /\ (ActiveOf(filt, "event") = {} \/ \E j \in ActiveOf(filt, "event") : FMatches(filt[j], m))
+FiltersActive(filt) == (ActiveOf(filt, "pos") \cup ActiveOf(filt, "neg") \cup ActiveOf(filt, "event")) # {}
+
+FilteredShapes == {"pos", "neg", "event", "pos_neg", "pos_event", "neg_event", "pos_neg_event", "disabled"}
+UnfilteredShapes == {"empty", "marker_only", "disabled_only"}
+UsesPos(sh) == sh \in {"pos", "pos_neg", "pos_event", "pos_neg_event", "disabled"}
+UsesNeg(sh) == sh \in {"neg", "pos_neg", "neg_event", "pos_neg_event"}
+UsesEvent(sh) == sh \in {"event", "pos_event", "neg_event", "pos_neg_event"}
+Used(sh) == (IF UsesPos(sh) THEN <<"p">> ELSE <<>>) \o (IF UsesNeg(sh) THEN <<"n">> ELSE <<>>) \o (IF UsesEvent(sh) THEN <<"e">> ELSE <<>>)
+\* attribute bits of position i (0-based) under shape sh
+Fails(sh, i) == IF i \in match \/ Used(sh) = <<>> THEN "" ELSE Used(sh)[(i % Len(Used(sh))) + 1]
+PBit(sh, i) == IF UsesPos(sh) THEN Fails(sh, i) # "p" ELSE i % 2 = 0
+NBit(sh, i) == IF UsesNeg(sh) THEN Fails(sh, i) = "n" ELSE i % 2 = 1
+EBit(sh, i) == IF UsesEvent(sh) THEN Fails(sh, i) # "e" ELSE i % 3 = 0
+MsgOf(sh, sm, i) == [e |-> IF PBit(sh, i) THEN "ECUP" ELSE "ECUX",
+                     a |-> IF NBit(sh, i) THEN (IF EBit(sh, i) THEN "APNE" ELSE "APNX") ELSE (IF EBit(sh, i) THEN "APXE" ELSE "APXX"),
+                     c |-> IF i \in sm THEN "SRCH" ELSE "CTIX"]
+PosF == <<Flt("pos", TRUE, "ECUP", "", "")>>
+NegF == <<Flt("neg", TRUE, "", "APNE", ""), Flt("neg", TRUE, "", "APNX", "")>>
+EventF == <<Flt("event", TRUE, "", "APXE", ""), Flt("event", TRUE, "", "APNE", "")>>
+\* filters that would change the kept set if they were not disabled / were no marker
+Inert == <<Flt("neg", FALSE, "ECUP", "", ""), Flt("event", FALSE, "", "APZZ", ""), Flt("pos", FALSE, "ECUZ", "", ""), Flt("marker", TRUE, "ECUX", "", "")>>
+FiltOf(sh) == CASE sh = "empty" -> <<>>
+                [] sh = "marker_only" -> <<Flt("marker", TRUE, "ECUP", "", "")>>
+                [] sh = "disabled_only" -> SubSeq(Inert, 1, 3)
+                [] sh = "disabled" -> <<Inert[1]>> \o PosF \o SubSeq(Inert, 2, 4)
+                [] OTHER -> (IF UsesNeg(sh) THEN NegF ELSE <<>>) \o (IF UsesPos(sh) THEN PosF ELSE <<>>) \o (IF UsesEvent(sh) THEN EventF ELSE <<>>)
+\* the search filter is an event filter for the shapes with event filters, a positive one otherwise
+SearchFiltOf(sh) == <<Flt(IF UsesEvent(sh) THEN "event" ELSE "pos", TRUE, "", "", "SRCH")>>
+KeptBy(sh, sm) == {i \in 0..(N - 1) : KeepMsg(FiltOf(sh), MsgOf(sh, sm, i))}
+\* the shape realises the abstract match set under the filter-set semantics (else the model is wrong: TLC stops)
+ShapeOk(sh, sm) == IF sh \in UnfilteredShapes THEN ~FiltersActive(FiltOf(sh)) /\ match = 0..(N - 1)
+                   ELSE FiltersActive(FiltOf(sh)) /\ KeptBy(sh, sm) = match
+
 Emittable == kind = "stream" \/ late
 PredD == IF kind = "stream" THEN <<Target(win0)>> \o [k \in 1..Len(chg0) |-> Target(chg0[k])]
          ELSE IF chg0 = <<>> THEN <<Target(win0)>> ELSE <<<<>>, Target(chg0[1])>>
-Scn(sm, unf) ==
-  LET S == IF unf THEN [i \in 1..N |-> i - 1] ELSE FL IN
-  [m |-> Bits(match), sm |-> Bits(sm), unfiltered |-> unf, kind |-> kind, late |-> late, win |-> win0, chg |-> chg0,
+Scn(sm, sh) ==
+  LET unf == sh \in UnfilteredShapes
+      S == IF unf THEN [i \in 1..N |-> i - 1] ELSE FL IN
+  [msgs |-> [i \in 1..N |-> MsgOf(sh, sm, i - 1)], filt |-> FiltOf(sh), sfilt |-> SearchFiltOf(sh), shape |-> sh,
+   m |-> Bits(match), sm |-> Bits(sm), unfiltered |-> unf, kind |-> kind, late |-> late, win |-> win0, chg |-> chg0,
    search |-> IF kind = "stream" THEN Searches ELSE <<>>,
    lookups |-> IF kind = "stream" THEN Lookups ELSE <<>>,
    pred |-> [d |-> PredD,
              pages |-> IF kind = "stream" THEN Concat([k \in 1..Len(Searches) |-> SearchPages(S, sm, Searches[k][1], Searches[k][2])]) ELSE <<>>,
              lk |-> IF kind = "stream" THEN [k \in 1..Len(Lookups) |->
                         IF Lookups[k][1] = "index" THEN IndexPos(S, Lookups[k][2]) ELSE TimePos(S, Lookups[k][2])] ELSE <<>>]]
+EmitOne(sm, sh) == Assert(ShapeOk(sh, sm), <<"filter shape does not realise the match set", sh, match>>) /\ PrintT(<<"SCN", ToJson(Scn(sm, sh))>>)
 EmitScn == (fresh /\ Emittable) =>
              \A sm \in SearchSets :
-               /\ PrintT(<<"SCN", ToJson(Scn(sm, FALSE))>>)
-               /\ (match = 0..(N - 1) => PrintT(<<"SCN", ToJson(Scn(sm, TRUE))>>))
+               /\ \A sh \in FilteredShapes : EmitOne(sm, sh)
+               /\ (match = 0..(N - 1) => \A sh \in UnfilteredShapes : EmitOne(sm, sh))
 =============================================================================
